@@ -661,10 +661,58 @@ def _call_native_method(I, args, kw):
     raise OutOfFragment("unreachable")
 
 
+def key_identity(I, k):
+    """Hashable identity of a (possibly symbolic) dictionary key."""
+    k = I.resolve_opt(k)
+    if isinstance(k, SEnum):
+        if k.members is not None:
+            k = I.resolve_enum(k)
+            return ('c', k), k
+        return ('e', k.cls, z3.simplify(k.t).get_id()), k
+    if isinstance(k, SSeq):
+        t = k.to_z3()
+        I.path._keep.append(t)
+        return ('q', k.kind, t.get_id()), k
+    if isinstance(k, SInt):
+        t = z3.simplify(k.t)
+        I.path._keep.append(t)
+        return ('i', t.get_id()), k
+    if isinstance(k, (Opaque, Obj)):
+        return ('o', id(k)), k
+    return ('c', k), k
+
+
+def sdict_get(I, d, key):
+    """-> SOpt(absent?, value) memoised per key identity"""
+    from .sym import SDict
+    kid, key = key_identity(I, key)
+    if kid not in d.memo:
+        absent = fresh("absent_" + d.name, z3.BoolSort())
+        n = len(d.memo)
+        vk = d.vkind
+        if isinstance(vk, tuple) and vk[0] == 'bykey':
+            vk = vk[1].get(kid[1] if kid[0] == 'c' else None, 'opaque')
+        val = d.maker(I, vk, "%s[%d]" % (d.name, n))
+        d.memo[kid] = SOpt(absent, val)
+        d.keys_[kid] = key
+        I.path.assume(z3.Implies(z3.Not(absent), z3.Not(d.empty)))
+    return d.memo[kid]
+
+
 def native_method_call(I, name, recv, args, kw):
     MB = _pyvc().MutBytes
     SL = _pyvc().SList
     recv = I.resolve_opt(recv)
+    from .sym import SDict
+    if isinstance(recv, SDict):
+        if name == 'get':
+            r = sdict_get(I, recv, args[0])
+            if len(args) > 1 and args[1] is not None:
+                if I.path.branch(r.isnone):
+                    return args[1]
+                return r.v
+            return r
+        raise OutOfFragment("SDict.%s" % name)
     allconc = not is_symbolic(recv) and not isinstance(recv, (MB, SL)) and \
         all(not is_symbolic(a) and not isinstance(a, (MB, SL, _pyvc().Closure, _pyvc().BoundMethod))
             for a in list(args) + list(kw.values()))
@@ -873,6 +921,8 @@ _orig_lookup = M.lookup_model
 
 
 def lookup_model(f):
+    if getattr(f, '_pyvc_model', False):
+        return f
     if isinstance(f, _NativeMethod):
         name = f.__name__
         return lambda I, args, kw: native_method_call(I, name, args[0], args[1:], kw)
